@@ -98,7 +98,7 @@ m = {
  "engines": [{"name": "tlc-trace-validation", "path": "/verif/check", "serves_properties": sorted(CLAIMS),
               "kind_free_text": "TLA+ specification (spec/*.tla) + TLC (toy-scale exhaustive model checking and full-scale trace validation with a BigInt override) + Rust harness executing the real instruction handlers natively"}],
  "checks": checks,
- "notes": "see DESIGN.md; work in progress - properties not yet claimed are listed under not_applicable with the reason",
+ "notes": "see DESIGN.md section 0 (as built: what decides each property, deviations from the plan, the repaired SDK defect, false alarms corrected, which checks catch which seeded changes); known_findings.json lists repaired / known defects; seeded/ holds the property-breaking changes used to evaluate the checks (never applied to /repo)",
  "not_applicable": [{"property_id": p["id"], "reason": "check not built yet (work in progress; planned per DESIGN.md section 4)"} for p in props if p["id"] not in CLAIMS],
 }
 json.dump(m, open(os.path.join(ROOT, "MANIFEST.json"), "w"), indent=1)
